@@ -17,6 +17,8 @@ import (
 	"pgregory.net/rapid"
 )
 
+func init() { bundlekit.AllowCollide = true }
+
 func TestMain(m *testing.M)   { vh.Main(m) }
 func TestReplay(t *testing.T) { vh.Replay(t) }
 func TestCorpus(t *testing.T) { vh.Corpus(t) }
